@@ -130,6 +130,8 @@ class Polynomial:
     def __pow__(self, power, modulo=None):
         if power == 0:
             return self.__class__([[1]])
+        if power < 0:
+            return RationalPolynomial(self.__class__([[1]]), self ** -power)
         *_, last = power_supply(self, power)
         return last
 
@@ -138,6 +140,9 @@ class Polynomial:
             return RationalPolynomial(self, other)
         # Assume scalar
         return self * (1 / other)
+
+    def __rtruediv__(self, other):
+        return RationalPolynomial(self.__class__(other), self)
 
     def __str__(self):
         preprocessed = (monomial if len(monomial) == 1 else monomial[1:] if monomial[0] == 1 else monomial
